@@ -114,7 +114,10 @@ fn main() {
                 let mut emit = |line: String| lines.push(line);
                 match prop.as_str() {
                     "C01" => c01::generate(&mut rng, &tier, &mut emit),
-                    "C10" => c11::generate_c10(&mut rng, &tier, &mut emit),
+                    "C10" => {
+                        c11::generate_c10(&mut rng, &tier, &mut emit);
+                        c07::generate_c10(&mut rng, &tier, &mut emit);
+                    }
                     "C11" => c11::generate_c11(&mut rng, &tier, &mut emit),
                     "C02" => c02::generate(&mut rng, &tier, &mut emit),
                     "C16" => c16::generate(&mut rng, &tier, &mut emit),
@@ -132,9 +135,15 @@ fn main() {
                     "C15" => c15::generate(&mut rng, &tier, &mut emit),
                     "C17" => c17::generate_c17(&mut rng, &tier, &mut emit),
                     "C20" => c17::generate_c20(&mut rng, &tier, &mut emit),
-                    "C08" => c08::generate(&mut rng, &tier, &mut emit),
+                    "C08" => {
+                        c08::generate(&mut rng, &tier, &mut emit);
+                        c08::generate_daemon(&mut rng, &tier, &mut emit);
+                    }
                     "C16" => c16::generate(&mut rng, &tier, &mut emit),
-                    "C18" => c18::generate(&mut rng, &tier, &mut emit),
+                    "C18" => {
+                        c18::generate(&mut rng, &tier, &mut emit);
+                        c18::generate_daemon(&mut rng, &tier, &mut emit);
+                    }
                     _ => {
                         eprintln!("unknown property {}", prop);
                         std::process::exit(2);
